@@ -37,7 +37,9 @@ def _one_step(kind):
         joint = h.call("affine_joint_transformation", prior)                                # REAL
         dim_y = w.block_index([Dx, Dy], [1])
         post_b = joint.condition_on(dim_y).condition_on_x(y)                                # REAL
-        for nm, q in (("(b)joint+condition_on", post_b), ("(c)product+normalise", post_c)):
+        # (c') the same route with multiply's default (update_full=False: the covariance of the product is computed lazily)
+        post_c2 = prior.multiply(lik).get_density()                                         # REAL
+        for nm, q in (("(b)joint+condition_on", post_b), ("(c)product+normalise", post_c), ("(c')product(default)+normalise", post_c2)):
             w.equal(f"posterior/{nm}=(a)/mu", q.mu, post_a.mu)
             w.equal(f"posterior/{nm}=(a)/Sigma", q.Sigma, post_a.Sigma)
             w.equal(f"posterior/{nm}=(a)/density", q.evaluate_ln(x), post_a.evaluate_ln(x))
